@@ -65,6 +65,7 @@ Proof.
   pose proof (datagram_steps_bound C st bytes HC0 HI ltac:(lia) HK) as [S0 S1]. split; [exact S0|].
   eapply Z.le_trans; [exact S1|]. unfold steps_bound.
   pose proof (len_nonneg _ (subs_of bytes)). pose proof (len_nonneg _ (ps_readers st)).
-  pose proof (step_cap_mono (C + frag_bytes (subs_of bytes)) (C + 26 * len bytes) ltac:(lia)) as M. unfold step_cap in M.
-  nia.
+  pose proof (step_cap_mono (C + frag_bytes (subs_of bytes)) (C + 26 * len bytes) ltac:(lia)) as M.
+  fold (step_cap (C + frag_bytes (subs_of bytes))). fold (step_cap (C + 26 * len bytes)).
+  apply Z.mul_le_mono_nonneg_l; [apply Z.mul_nonneg_nonneg; lia|exact M].
 Qed.
